@@ -9,7 +9,8 @@ EVIDENCE = dict(
          "histories on real mixed-type projects validated event by event by Trace_RVLinks (Consistent "
          "evaluated on every real state); every fourth history passes through save+load and pure saves and continues; a "
          "262-module history, a history of 300 connect/disconnect cycles as single events (Cycles), repeated requests between "
-         "positions above 256, the Output as the only source.",
+         "positions above 256, the Output as the only source."
+         " Operands carry ~ applied up to three times (~~m is m).",
     explanation="TLC checks Consistent, EdgesAsRequested and the save/load invariants on every reachable state "
                 "of the bounded model; the real Project.connect / >> / << / ~ are bound by graph replay and by "
                 "trace validation.")
